@@ -181,6 +181,7 @@ def gen_machine_program(r: Rng, feat: Dict[str, bool], size: int) -> Dict:
         a.op("MV_KOH", r.choice([0x07, 0x07, 0x00, 0x01]))
     main = a.pc
 
+    bare: Dict[str, list] = {}     # address of a hand-built-frame RETI -> [PC, F, IMR, S] it must restore
     subs: List[int] = []      # filled after main is laid out (forward addresses patched)
     patches: List[Tuple[int, str, int]] = []   # (offset in buf, kind, sub index)
     n_sub = r.range(1, 3) if feat.get("calls") else 0
@@ -197,7 +198,8 @@ def gen_machine_program(r: Rng, feat: Dict[str, bool], size: int) -> Dict:
                ("romw", 3 if feat.get("rom_writes") else 0),
                ("cardrw", 4 if feat.get("card_rw") and not in_loop else 0),
                ("xram", 5 if feat.get("xram") else 0),
-               ("crit", 3 if feat.get("imr_writes") and feat.get("isr_writes") and depth == 0 and not in_loop else 0)]
+               ("crit", 3 if feat.get("imr_writes") and feat.get("isr_writes") and depth == 0 and not in_loop else 0),
+               ("bare_reti", 2 if feat.get("bare_reti") and depth == 0 and not in_loop else 0)]
         kind = r.weighted([p for p in pal if p[1] > 0])
         if kind == "nop":
             a.op("NOP")
@@ -276,6 +278,23 @@ def gen_machine_program(r: Rng, feat: Dict[str, bool], size: int) -> Dict:
             a.lmn("ST_A", addr, tag="ROM_W")
             if not in_loop:
                 a.lmn("LD_A", addr, tag="ROM_R")
+        elif kind == "bare_reti":
+            # a task switcher's return: interrupts off, a five-byte frame (IMR, F, PC) built by hand just below the
+            # stack top, S pointed at it, RETI.  No interrupt was taken, so the RETI serves no request: it must restore
+            # PC, F, IMR and S from the frame and leave every status bit alone.
+            a.op("AND_IMR", 0x7F)
+            imr_v = r.choice([0x80, 0x8F, 0x00, 0x0F, 0x83, 0x88, 0x8C])
+            f_v = r.below(4)
+            base = S_INIT - 5
+            # length of what follows up to and including RETI: 5 x (MV_A 2 + ST_A 4) + MV_S 4 + RETI 1
+            cont = a.pc + 5 * 6 + 4 + 1
+            for off, val in ((0, imr_v), (1, f_v), (2, cont & 0xFF), (3, (cont >> 8) & 0xFF), (4, (cont >> 16) & 0xFF)):
+                a.op("MV_A", val)
+                a.lmn("ST_A", base + off, tag="BARE:frame")
+            a.op("MV_S", base & 0xFF, (base >> 8) & 0xFF, (base >> 16) & 0xFF, tag="BARE:setS")
+            at = a.op("RETI", tag="BARE_RETI")
+            bare[str(at)] = [cont, f_v, imr_v, S_INIT]
+            assert a.pc == cont
         elif kind == "crit":
             # a critical section of a polling main program: interrupts off, time passes (requests pile up),
             # one status bit is acknowledged by hand, interrupts on again
@@ -424,4 +443,5 @@ def gen_machine_program(r: Rng, feat: Dict[str, bool], size: int) -> Dict:
         "code": [CODE_BASE, end - 1],
         "ins": {str(addr): [ln, tag] for addr, ln, tag in a.ins},
         "style": style,
+        "bare": bare,
     }
